@@ -1366,7 +1366,7 @@ def _evatom(at, env, cache):
     elif k == "Lg":
         u = evalf(at.args[0], env, cache)
         u = u.real if isinstance(u, complex) else u
-        r = math.log(u)
+        r = math.log(u) if u != 0 else float("-inf")      # what the real code computes (torch.log(0) = -inf)
     elif k == "Inv":
         r = 1.0 / evalf(at.args[0], env, cache)
     elif k == "At":
